@@ -36,7 +36,9 @@ def _c13(name, entry, claim, n=4, thr=2, unwind=None, lens=None, **kw):
         out = []
         for L in lens:
             o = _c13('%s_len%d' % (name, L), entry, claim + ' [length = %d]' % L, n=n, thr=thr, unwind=unwind, **kw)
-            o['defs']['VF_LEN'] = L; out.append(o)
+            o['defs']['VF_LEN'] = L
+            if L != max(lens) and 'tiers' not in kw: o['tiers'] = ['thorough']   # quick tier: the longest length only
+            out.append(o)
         return out
     d = dict(name=name, harness='c13_parallel.cpp', entry=entry, par=True,
              defs={'VF_N': n, 'MANIFOLD_VERIF_SEQ_THRESHOLD': thr},
@@ -49,19 +51,21 @@ PROPERTIES['C13'] = {
   'level_text': 'Bounded model checking of the real src/parallel.h Par branches against a nondeterministic protocol model of TBB: outputs and returned iterators equal a hand-written sequential oracle for every input of length <= 4 and every schedule the model allows (<=3 chunks). Right level: schedule-dependent defects (scan body protocol, merge pivots, radix buffer parity) need all schedules, which a solver covers and a run samples.',
   'level_note': 'Bounds: n<=4, <=3 chunks per parallel call, 2 modelled worker slots; kSeqThreshold lowered to 2 through the MANIFOLD_VERIF hook. The TBB model (models/include/tbb/vf_tbb.h) is trusted to over-approximate oneTBB. Lock-free containers: sequential spec only in this check (interference steps listed in evidence when present).',
   'obligations': _flat([
-    _c13('exscan_abssum', 'h_exscan_abssum', 'exclusive_scan(Par) with the repo-style AbsSum operator == sequential exclusive scan; input untouched'),
+    _c13('exscan_abssum', 'h_exscan_abssum', 'exclusive_scan(Par) with the repo-style AbsSum operator == sequential exclusive scan; input untouched', tiers=['thorough']),
     _c13('exscan_abssum_inplace', 'h_exscan_abssum_inplace', 'exclusive_scan(Par) in place (d_first == first), as CreateHalfedges/CompactProps call it'),
     _c13('exscan_lastnz', 'h_exscan_lastnz', 'exclusive_scan(Par) with an associative NON-commutative operator (operand order in reverse_join matters)'),
-    _c13('incscan', 'h_incscan', 'inclusive_scan(Par) (lambda form of parallel_scan), distinct and in-place buffers'),
+    _c13('incscan', 'h_incscan', 'inclusive_scan(Par) (lambda form of parallel_scan), distinct and in-place buffers', tiers=['thorough']),
     _c13('copy_if', 'h_copy_if', 'copy_if(Par): kept elements in order, returned iterator, nothing written past the end'),
-    _c13('remove_if', 'h_remove_if', 'remove_if(Par) == std::remove_if prefix and returned iterator'),
+    _c13('remove_if', 'h_remove_if', 'remove_if(Par) == std::remove_if prefix and returned iterator', lens=[1, 2, 3, 4]),
     _c13('remove', 'h_remove', 'remove(Par) == std::remove', lens=[1, 2, 3, 4]),
-    _c13('unique', 'h_unique', 'unique(Par) (CopyIfScanBody with the i/i+1 offset trick) == std::unique'),
+    _c13('unique', 'h_unique', 'unique(Par) (CopyIfScanBody with the i/i+1 offset trick) == std::unique', lens=[1, 2, 3, 4]),
     _c13('elementwise', 'h_elementwise', 'for_each/transform/copy/fill/sequence(Par): every index exactly once, nothing outside [first,last)'),
     _c13('gather_scatter', 'h_gather_scatter', 'gather/scatter(Par) through an arbitrary permutation map'),
-    _c13('reduce_plus_max', 'h_reduce', 'reduce(plus), reduce(max), transform_reduce (Par) == sequential fold for every reduction tree', lens=[1, 2, 3, 4]),
-    _c13('count_all', 'h_count_all', 'count_if, all_of (Par) == sequential definition for every reduction tree'),
-    _c13('merge_sort', 'h_merge_sort', 'stable_sort(Par, comp) = mergeSortRec/mergeRec: sorted AND stable (tags of equal keys keep input order) for every parallel_invoke order', lens=[2, 3, 4], unwind={'default': 6}, recursion={'mergeRec|mergeSortRec': 4}),
+    _c13('reduce_plus', 'h_reduce_plus', 'reduce(Par, plus, init = identity 0) == sequential fold for every reduction tree', lens=[1, 2, 3, 4]),
+    _c13('reduce_max', 'h_reduce_max', 'reduce(Par, max, init = identity) == sequential fold for every reduction tree', lens=[4]),
+    _c13('transform_reduce', 'h_transform_reduce', 'transform_reduce(Par, plus, 3*x, init = 0) == sequential fold', lens=[4]),
+    _c13('count_all', 'h_count_all', 'count_if, all_of (Par) == sequential definition for every reduction tree', tiers=['thorough']),
+    _c13('merge_rec', 'h_merge_rec', 'details::mergeRec (parallel stable merge used by stable_sort(Par, comp)): output is the STABLE merge of two sorted runs (left run first on ties) for every split and every parallel_invoke order', n=3, lens=[1, 2, 3], unwind={'default': 6}, recursion={'mergeRec|mergeSortRec': 3}, timeout=900),
     _c13('radix_sort', 'h_radix_sort', 'stable_sort(Par) on uint32 = radix_sort/SortedRange/LSB_radix_sort/mergeRec: sorted permutation for every reduce tree and split timing', n=3, lens=[2, 3], unwind={'default': 5, 'Hist|histogram|prefixSum': 257}, recursion={'mergeRec|mergeSortRec': 4}),
   ]),
 }
@@ -69,17 +73,23 @@ PROPERTIES['C13'] = {
 _INGEST_CUTS = ['_ZN8manifold8Manifold4Impl15CreateHalfedges.*']
 _INGEST_REDIR = {'_ZN8manifold8Manifold4Impl10ReserveIDsEj': 'vf_stub_ReserveIDs'}
 PROPERTIES['C09'] = {
-  'level_text': 'Bounded model checking of the real MeshGL ingest ladder on arbitrary input structures: for every MeshGL64/MeshGL whose vectors have length <= the bound and arbitrary contents, the constructor performs no out-of-bounds access, division by zero, signed overflow, out-of-range float->int conversion or throw before handing over to halfedge construction, and early returns are empty with an error status. Right level: malformed-input defects are single unvalidated index/length relations, which the solver finds by construction.',
-  'level_note': 'Bounds: vertProperties<=12, triVerts<=12, other vectors<=3..12 entries, all contents arbitrary. Everything from CreateHalfedges on is cut (the success path ends there); ReserveIDs returns an arbitrary id; std::map via models/rbtree.h (unbalanced BST). Allocation failure is out of scope.',
+  'level_text': 'Bounded model checking of the real MeshGL ingest ladder on arbitrary input structures: for every MeshGL64/MeshGL within the size bounds and with arbitrary contents, the constructor performs no out-of-bounds access, division by zero, signed overflow, out-of-range float->int conversion or throw before handing over to halfedge construction, and early returns are empty with an error status. Right level: malformed-input defects are single unvalidated index/length relations, which the solver finds by construction.',
+  'level_note': 'Two slices: "gates" (every length symbolic but <=4, numProp arbitrary) and "deep" (4 vertices x 3 properties and 4 triangles as constant lengths so that the run table / merge map / tangent / triangle loops are reached; every other vector of symbolic length <=3..12; all contents arbitrary). Everything from CreateHalfedges on is cut (the success path ends there); ReserveIDs returns an arbitrary id; std::map via models/rbtree.h (unbalanced BST). Allocation failure is out of scope. Numeric argument guards: see C17 circular_segments.',
   'obligations': [
-    dict(name='ingest64', harness='c09_ingest.cpp', entry='h_ingest64', cuts=_INGEST_CUTS, redirect=_INGEST_REDIR, models=['rbtree.h'],
-         unwind={'default': 13}, backends=['minisat'], timeout=900, object_bits=12,
-         claim='Impl::Impl(MeshGL64) up to the call of CreateHalfedges: memory safe, no div-by-zero / overflow / throw for every field content; error returns are empty',
-         bounds='vertProperties<=12 doubles, triVerts<=12, mergeFrom/To, runIndex, runOriginalID, runFlags<=3, runTransform<=12, faceID<=4, halfedgeTangent<=8, numProp and tolerance arbitrary',
-         targets=['Manifold::Impl::Impl<double,uint64_t>(MeshGLP)', 'MeshGLP::NumVert/NumTri/Backside/HasNormals', 'Manifold::Impl::MakeEmpty', 'Vec<T>', 'std::map insert (modelled tree)']),
-    dict(name='ingest32', harness='c09_ingest.cpp', entry='h_ingest32', cuts=_INGEST_CUTS, redirect=_INGEST_REDIR, models=['rbtree.h'],
-         unwind={'default': 13}, backends=['minisat'], timeout=900, object_bits=12,
-         claim='same for the 32-bit MeshGL instantiation', bounds='as ingest64 with float / uint32_t fields',
+    dict(name='ingest64_gates', harness='c09_ingest.cpp', entry='h_ingest64', cuts=_INGEST_CUTS, redirect=_INGEST_REDIR, models=['rbtree.h'],
+         unwind={'auto': True, 'start': 2, 'max': 16, 'h_ingest': 13}, recursion={'default': 2}, backends=['minisat'], timeout=900, object_bits=12,
+         claim='Impl::Impl(MeshGL64), early gates: memory safe, no div-by-zero / overflow / throw for every field content and every numProp; error returns are empty',
+         bounds='vertProperties<=4, triVerts<=3, every other vector<=1 entry, numProp / tolerance / all contents arbitrary',
+         targets=['Manifold::Impl::Impl<double,uint64_t>(MeshGLP)', 'MeshGLP::NumVert/NumTri', 'Manifold::Impl::MakeEmpty']),
+    dict(name='ingest64_deep', harness='c09_ingest.cpp', entry='h_ingest64', defs={'VF_DEEP': 1, 'VF_L': 3}, cuts=_INGEST_CUTS, redirect=_INGEST_REDIR, models=['rbtree.h'],
+         unwind={'auto': True, 'start': 2, 'max': 16, 'h_ingest': 13}, recursion={'default': 2}, backends=['minisat'], timeout=1500, object_bits=12, mem_gb=20,
+         cdefs=['VF_ALLOC_CLASSES=VF_C(4) VF_C(8) VF_C(12) VF_C(16) VF_C(24) VF_C(32) VF_C(48) VF_C(64) VF_C(96)'],
+         claim='Impl::Impl(MeshGL64), deep slice up to the call of CreateHalfedges: merge map, run table -> triRef, faceID, run transforms/flags, tangents, triangle index check: memory safe, no UB, error returns are empty',
+         bounds='numProp=3, 12 vertProperties, 12 triVerts (constant lengths); mergeFrom/To, runIndex<=3, runOriginalID, runFlags<=2, runTransform<=12, faceID<=4, halfedgeTangent<=4; all contents arbitrary',
+         targets=['Manifold::Impl::Impl<double,uint64_t>(MeshGLP)', 'MeshGLP::Backside/HasNormals', 'Vec<T>', 'std::map insert (modelled tree)']),
+    dict(name='ingest32_gates', harness='c09_ingest.cpp', entry='h_ingest32', cuts=_INGEST_CUTS, redirect=_INGEST_REDIR, models=['rbtree.h'],
+         unwind={'auto': True, 'start': 2, 'max': 16, 'h_ingest': 13}, recursion={'default': 2}, backends=['minisat'], timeout=900, object_bits=12,
+         claim='same early gates for the 32-bit MeshGL instantiation', bounds='as ingest64_gates with float / uint32_t fields',
          targets=['Manifold::Impl::Impl<float,uint32_t>(MeshGLP)']),
   ],
 }
@@ -105,10 +115,10 @@ PROPERTIES['C02'] = {
   'obligations': [
     dict(name='shadows', harness='c02_kernels.cpp', entry='h_shadows', backends=['minisat'], timeout=300, unwind={'default': 2},
          claim='Shadows(p,q,d) xor Shadows(q,p,-d) unless p==q and d==0; withSign', bounds='all finite doubles', targets=['shared.h Shadows, withSign']),
-    dict(name='k02_tt_f16', harness='c02_kernels.cpp', entry='h_k02_tt', real='f16', defs={'VF_BND': 1024}, backends=['kissat', 'minisat'], timeout=900, unwind={'default': 4}, tiers=['quick', 'thorough'],
+    dict(name='k02_tt_f16', harness='c02_kernels.cpp', entry='h_k02_tt', real='f16', defs={'VF_BND': 1024}, backends=['kissat', 'minisat'], timeout=900, unwind={'default': 13}, tiers=['quick', 'thorough'],
          claim='Kernel02<expandP=true,forward=true>: all harvested library assertions + |s02|<=1 + z02 not NaN when s02!=0', bounds='IEEE binary16 arithmetic, |x|<=1024, arbitrary finite normals, all 6 vertex numberings',
          targets=['boolean3.cpp Kernel02::operator(), Shadow01, LoadFaceEdges', 'shared.h Interpolate, Shadows']),
-    dict(name='k02_ff_f16', harness='c02_kernels.cpp', entry='h_k02_ff', real='f16', defs={'VF_BND': 1024}, backends=['kissat', 'minisat'], timeout=900, unwind={'default': 4}, tiers=['quick', 'thorough'],
+    dict(name='k02_ff_f16', harness='c02_kernels.cpp', entry='h_k02_ff', real='f16', defs={'VF_BND': 1024}, backends=['kissat', 'minisat'], timeout=900, unwind={'default': 13}, tiers=['thorough'],
          claim='Kernel02<false,false>: same contracts', bounds='binary16, |x|<=1024', targets=['boolean3.cpp Kernel02<false,false>']),
   ],
 }
@@ -142,5 +152,139 @@ PROPERTIES['C17'] = {
          claim='sind(90k) and cosd(90k) are exactly 0, +1 or -1 with the right sign', bounds='|k| <= 10^6; remquo by contract; the large-argument reduction RemPio2 is asserted unreachable', targets=['common.h sind, cosd', 'math.h sin, cos (small-argument paths)']),
     dict(name='sind_nonfinite', harness='c17_numeric.cpp', entry='h_sind_nonfinite', models=['libm.h'], backends=['minisat'], timeout=600, unwind={'default': 3}, recursion={'sind': 2}, object_bits=12, forbid=['_ZN8manifold4math7RemPio2.*'],
          claim='sind/cosd of NaN or +-inf is NaN', bounds='all non-finite doubles', targets=['common.h sind, cosd']),
+  ],
+}
+
+PROPERTIES['C15'] = {
+  'level_text': 'Bounded model checking of the cancellation building blocks with the cancel flag as a sticky nondeterministic oracle (Cancel() may take effect at any check): the ctx-aware for_each either visits every element exactly once or leaves the flag observably set; Progress() stays in [0,1] for all counter values; the counter reset order never lets a concurrent reader compute Progress() > 1.',
+  'level_note': 'Building blocks only (parallel.h for_each, ExecutionContext::Progress, ResetForStaticFactory). Phase skeletons of Boolean3::Result / Impl(MeshGL) / CreateLevelSet and poisoned caches are outside this check unless listed in the evidence. Sequential consistency assumed for the atomics.',
+  'obligations': [
+    dict(name='foreach_seq_cancel', harness='c15_cancel.cpp', entry='h_foreach_seq', defs={'VF_N': 1100}, cancel_oracle=True, backends=['minisat'], timeout=900, unwind={'default': 1101},
+         claim='for_each(Seq, ctx): elements visited in order, never twice; a short visit count implies the cancel flag fired and stays observable; real kSeqCancelChunk = 1024',
+         bounds='n <= 1100 (crosses the 1024-element check once), cancel oracle at every check site', targets=['parallel.h for_each(policy, first, last, ctx, f)', 'execution_impl.h IsCancelled']),
+    dict(name='foreach_noctx', harness='c15_cancel.cpp', entry='h_foreach_noctx', backends=['minisat'], timeout=300, unwind={'default': 9},
+         claim='for_each with ctx == nullptr always completes', bounds='n <= 8', targets=['parallel.h for_each']),
+    dict(name='progress_range', harness='c15_cancel.cpp', entry='h_progress', exceptions=True, backends=['minisat', 'kissat'], timeout=600, unwind={'default': 3}, tiers=['experimental'],
+         claim='Progress() in [0,1] whenever 0 <= donePhases <= totalPhases; 1 when total == 0 or done == total', bounds='all int counter values', targets=['execution_impl.cpp ExecutionContext::Progress']),
+    dict(name='reset_order', harness='c15_cancel.cpp', entry='h_reset_order', cdefs=['VF_HAVE_ENV'], extra_roots=['vf_env'], backends=['minisat', 'kissat'], timeout=600, unwind={'default': 3},
+         claim='ResetForStaticFactory: an observer computing Progress() before/after each of the four atomic stores never sees a value > 1', bounds='all int counter values, observer at every atomic access', targets=['execution_impl.cpp ResetForStaticFactory']),
+  ],
+}
+
+PROPERTIES['C04'] = {
+  'level_text': 'Bounded model checking of the places where scheduling could leak into results: the real parallel primitives and FlagStore::run_par under a nondeterministic TBB protocol model give, for every schedule the model allows, exactly the sequential result (bitwise), including stability of the parallel merge; and every comparator that keys a normalising sort is a strict weak order whose ties are exactly equal keys.',
+  'level_note': 'Primitive level: n<=4 elements, <=3 chunks, 2 modelled workers, kSeqThreshold lowered by the MANIFOLD_VERIF hook. Whole-mesh PAR=ON vs PAR=OFF equality, the Kernel12 recorder + re-sort in Intersect12, Face2Tri/BatchBoolean task groups and CrossSection are outside this check. libstdc++ std::stable_sort is replaced by a stable insertion sort model where noted.',
+  'obligations': [
+    dict(name='flagstore_run_par', harness='c04_determinism.cpp', entry='h_flagstore', par=True, cxxflags=['-fno-inline'], defs={'VF_N': 3},
+         redirect={'_ZSt11stable_sortIPmSt4lessImEEvT_S3_T0_': 'vf_stub_stable_sort_sz'}, unwind={'auto': True, 'start': 2, 'max': 8}, recursion={'default': 2}, object_bits=12,
+         cdefs=['VF_ALLOC_CLASSES=VF_C(8) VF_C(16) VF_C(24) VF_C(32) VF_C(48) VF_C(64) VF_C(96) VF_C(1024)'],
+         backends=['minisat'], timeout=900, tiers=['experimental'],
+         claim='FlagStore::run_par calls f exactly on the flagged indices in ascending order for every chunking, every chunk->worker assignment and every combine_each order',
+         bounds='n <= 3 indices, <=3 chunks, 2 workers; std::stable_sort(size_t*) modelled by insertion sort', targets=['edge_op.cpp FlagStore::run_par']),
+    dict(name='cmp_halfedge', harness='c04_determinism.cpp', entry='h_cmp_halfedge', par=True, backends=['minisat'], timeout=300, unwind={'default': 2},
+         claim='Halfedge::operator< is a strict weak order; incomparable <=> same (startVert,endVert)', bounds='all int fields', targets=['shared.h Halfedge::operator<']),
+    dict(name='cmp_tmpedge', harness='c04_determinism.cpp', entry='h_cmp_tmpedge', par=True, backends=['minisat'], timeout=300, unwind={'default': 2},
+         claim='TmpEdge: constructor normalises first<=second; operator< strict weak order with ties = equal (first,second)', bounds='all int fields', targets=['shared.h TmpEdge']),
+    dict(name='cmp_edgepos', harness='c04_edgepos.cpp', entry='h_cmp_edgepos', backends=['minisat'], timeout=300, unwind={'default': 2},
+         claim='EdgePos::operator< strict weak order; ties <=> equal (edgePos, collisionId)', bounds='all finite doubles, all ints', targets=['boolean_result.cpp EdgePos::operator<']),
+    _c13('par_exscan_lastnz', 'h_exscan_lastnz', 'exclusive_scan(Par) with a non-commutative operator is schedule independent (== sequential)'),
+    _c13('par_merge_rec_len3', 'h_merge_rec', 'parallel stable merge == sequential stable merge for every invoke order [length 3]', n=3, unwind={'default': 6}, recursion={'mergeRec|mergeSortRec': 3}, timeout=900, defs_extra={'VF_LEN': 3}, tiers=['experimental']),
+  ],
+}
+for _o in PROPERTIES['C04']['obligations']:
+    if 'defs_extra' in _o: _o['defs'].update(_o.pop('defs_extra'))
+
+PROPERTIES['C20'] = {
+  'level_text': 'Bounded model checking (differential) of the C binding sources against the C++ members they name: for all finite double arguments every manifold_box_* / manifold_rect_* function returns exactly what the C++ Box/Rect call returns and constructs at the caller-supplied address; the Error/OpType/JoinType tables are name-preserving and injective; scalar conversions keep component order.',
+  'level_note': 'Covers bindings/c/box.cpp, rect.cpp and conv.cpp completely (value-level functions). The ~250 wrappers of manifoldc.cpp / cross.cpp that forward to Manifold/CrossSection methods (argument flow into external C++ calls, alloc/destruct/delete pairing, callbacks) are NOT covered by this check.',
+  'obligations': [
+    dict(name='box_accessors', harness='c20_cbind.cpp', entry='h_box', real='f16', defs={'VF_FB': 64, 'VF_PART': 1}, backends=['minisat', 'kissat'], timeout=600, unwind={'default': 7},
+         claim='[part: min, max, dimensions, center, scale] manifold_box, _min, _max, _dimensions, _center, _scale, _contains_pt, _contains_box, _does_overlap_pt, _does_overlap_box, _is_finite, _union, _translate, _mul, _include_pt equal the C++ Box calls; placement at mem',
+         bounds='IEEE binary16 values |x| <= 64 (argument marshalling does not depend on precision; keeps the differential multiplier/adder equivalences decidable)', targets=['bindings/c/box.cpp', 'bindings/c/conv.cpp to_c/from_c(Box, vec3)']),
+    dict(name='box_predicates', harness='c20_cbind.cpp', entry='h_box', real='f16', defs={'VF_FB': 64, 'VF_PART': 2}, backends=['minisat', 'kissat'], timeout=600, unwind={'default': 7},
+         claim='[part: contains_pt, contains_box, does_overlap_pt, does_overlap_box, is_finite] manifold_box, _min, _max, _dimensions, _center, _scale, _contains_pt, _contains_box, _does_overlap_pt, _does_overlap_box, _is_finite, _union, _translate, _mul, _include_pt equal the C++ Box calls; placement at mem',
+         bounds='IEEE binary16 values |x| <= 64 (argument marshalling does not depend on precision; keeps the differential multiplier/adder equivalences decidable)', targets=['bindings/c/box.cpp', 'bindings/c/conv.cpp to_c/from_c(Box, vec3)']),
+    dict(name='box_ops', harness='c20_cbind.cpp', entry='h_box', real='f16', defs={'VF_FB': 64, 'VF_PART': 3}, backends=['minisat', 'kissat'], timeout=600, unwind={'default': 7},
+         claim='[part: union, translate, mul, include_pt] manifold_box, _min, _max, _dimensions, _center, _scale, _contains_pt, _contains_box, _does_overlap_pt, _does_overlap_box, _is_finite, _union, _translate, _mul, _include_pt equal the C++ Box calls; placement at mem',
+         bounds='IEEE binary16 values |x| <= 64 (argument marshalling does not depend on precision; keeps the differential multiplier/adder equivalences decidable)', targets=['bindings/c/box.cpp', 'bindings/c/conv.cpp to_c/from_c(Box, vec3)']),
+    dict(name='box_transform', harness='c20_cbind.cpp', entry='h_box_transform', real='f16', backends=['minisat', 'kissat'], timeout=600, unwind={'default': 13},
+         claim='manifold_box_transform passes its 12 scalars to mat3x4 column by column (equals Box::Transform)', bounds='integer-valued doubles in [-8,8] (exact arithmetic, so any argument permutation is visible)', targets=['bindings/c/box.cpp manifold_box_transform']),
+    dict(name='rect_accessors', harness='c20_cbind.cpp', entry='h_rect', real='f16', defs={'VF_FB': 64, 'VF_PART': 1}, backends=['minisat', 'kissat'], timeout=600, unwind={'default': 5},
+         claim='[part: min, max, dimensions, center, scale] every manifold_rect_* value function equals the C++ Rect call; placement at mem', bounds='IEEE binary16 values |x| <= 64', targets=['bindings/c/rect.cpp']),
+    dict(name='rect_predicates', harness='c20_cbind.cpp', entry='h_rect', real='f16', defs={'VF_FB': 64, 'VF_PART': 2}, backends=['minisat', 'kissat'], timeout=600, unwind={'default': 5},
+         claim='[part: contains_pt, contains_box, does_overlap_pt, does_overlap_box, is_finite] every manifold_rect_* value function equals the C++ Rect call; placement at mem', bounds='IEEE binary16 values |x| <= 64', targets=['bindings/c/rect.cpp']),
+    dict(name='rect_ops', harness='c20_cbind.cpp', entry='h_rect', real='f16', defs={'VF_FB': 64, 'VF_PART': 3}, backends=['minisat', 'kissat'], timeout=600, unwind={'default': 5},
+         claim='[part: union, translate, mul, include_pt] every manifold_rect_* value function equals the C++ Rect call; placement at mem', bounds='IEEE binary16 values |x| <= 64', targets=['bindings/c/rect.cpp']),
+    dict(name='box_arith', harness='c20_cbind.cpp', entry='h_box_arith', real='f16', backends=['minisat', 'kissat'], timeout=600, unwind={'default': 7},
+         claim='manifold_box_translate / manifold_box_mul equal Box::operator+ / operator* (scalars arrive in x,y,z order); placement at mem', bounds='integer-valued doubles in [-8,8] (exact arithmetic)', targets=['bindings/c/box.cpp']),
+    dict(name='rect_arith', harness='c20_cbind.cpp', entry='h_rect_arith', real='f16', backends=['minisat', 'kissat'], timeout=600, unwind={'default': 5},
+         claim='manifold_rect_translate / manifold_rect_mul equal Rect::operator+ / operator*', bounds='integer-valued doubles in [-8,8]', targets=['bindings/c/rect.cpp']),
+    dict(name='enums_conv', harness='c20_cbind.cpp', entry='h_enums', backends=['minisat'], timeout=300, unwind={'default': 3},
+         claim='to_c(Manifold::Error) maps each of the 15 enumerators to the C enumerator of the same name, injectively; OpType/JoinType tables; vec2/3/4 conversions keep component order', bounds='all enumerators, all finite doubles', targets=['bindings/c/conv.cpp']),
+  ],
+}
+
+PROPERTIES['C12'] = {
+  'level_text': 'Bounded model checking of the real Hull and Simplify kernels of CrossSection: HullImpl on every multiset of <=4 lattice points returns a strictly convex counter-clockwise polygon over input points that contains every input point (exact integer orientation oracle); SimplifyRing returns an in-order subsequence with >=3 vertices in which, if more than 3 remain, every vertex deviates by at least the tolerance.',
+  'level_note': 'Hull and Simplify clauses only; Offset joins, Decompose and monotonicity in delta are outside this check. Lattice radius 2, <=4 points / ring of <=5; SimplifyRing arithmetic decided at IEEE half precision. libstdc++ stable_sort/priority_queue are executed as compiled (real code).',
+  'obligations': [
+    dict(name='hull_n4', harness='c12_cross.cpp', entry='h_hull', defs={'VF_LEN': 4, 'VF_R': 2}, models=['stdlib.h'], unwind={'auto': True, 'start': 2, 'max': 8, 'h_hull': 5}, recursion={'default': 2},
+         backends=['minisat'], timeout=1200, object_bits=12,
+         claim='HullImpl: vertices are input points; if the points are not all collinear the result has >=3 vertices, is strictly convex CCW and contains every input point', bounds='4 lattice points in [-2,2]^2 (duplicates, collinear allowed)', targets=['cross_section.cpp HullImpl, HullBacktrack', 'polygon.cpp CCW']),
+    dict(name='hull_n3', harness='c12_cross.cpp', entry='h_hull', defs={'VF_LEN': 3, 'VF_R': 3}, models=['stdlib.h'], unwind={'auto': True, 'start': 2, 'max': 8, 'h_hull': 4}, recursion={'default': 2},
+         backends=['minisat'], timeout=900, object_bits=12,
+         claim='HullImpl on 3 points', bounds='3 lattice points in [-3,3]^2', targets=['cross_section.cpp HullImpl']),
+    dict(name='simplify_n4', harness='c12_cross.cpp', entry='h_simplify', defs={'VF_LEN': 4, 'VF_R': 2}, models=['stdlib.h'], real='f16', unwind={'auto': True, 'start': 2, 'max': 16, 'h_simplify': 5}, recursion={'default': 2},
+         backends=['minisat'], timeout=1200, object_bits=12,
+         claim='SimplifyRing: in-order subsequence, size >= 3, remaining vertices deviate >= tol when more than 3 remain', bounds='ring of 4 lattice points in [-2,2]^2, tol any binary16 value |tol|<=16', targets=['cross_section.cpp SimplifyRing']),
+  ],
+}
+
+PROPERTIES['C06'] = {
+  'level_text': 'Bounded model checking of the lock-free building blocks under a rely/guarantee interference model: the real AtomicAdd CAS loop (with spurious weak-CAS failures) and Impl::ReserveIDs, executed by one thread while an environment performs up to 2 legal steps of the same operation around every atomic access, are linearisable (no lost update, returned value = state just before the own step, reserved ID ranges pairwise disjoint).',
+  'level_note': 'Narrow: only the atomic building blocks. The mutex discipline on pNode_/cache_/paths_, shared_ptr atomic publication, ConcurrentSharedPtr and deadlock freedom are NOT covered (they need a concurrent engine for libstdc++ smart pointers, which this tool chain does not have). Sequential consistency assumed; <=2 interference events, <=1 spurious CAS failure.',
+  'obligations': [
+    dict(name='atomic_add_interference', harness='c06_atomics.cpp', entry='h_atomic_add', cdefs=['VF_HAVE_ENV'], extra_roots=['vf_env'], backends=['minisat'], timeout=600, unwind={'default': 5},
+         claim='AtomicAdd<size_t> under <=2 interfering adds and a spurious compare_exchange_weak failure: terminates, no lost update, returns the value immediately before its own add',
+         bounds='2 interference events at any atomic access, 1 spurious failure, values < 2^40', targets=['utils.h AtomicAdd<T> (CAS loop)', 'atomic_compat.h AtomicRef']),
+    dict(name='reserve_ids_interference', harness='c06_atomics.cpp', entry='h_reserve_ids', cdefs=['VF_HAVE_ENV'], extra_roots=['vf_env'], backends=['minisat'], timeout=600, unwind={'default': 5},
+         claim='Impl::ReserveIDs under <=2 concurrent reservations: returned range disjoint from every other range, counter advanced by the total',
+         bounds='2 interference events, counter < 2^30 (no uint32 wrap), n < 2^20', targets=['impl.cpp Manifold::Impl::ReserveIDs']),
+  ],
+}
+
+PROPERTIES['C10'] = {
+  'level_text': 'Bounded model checking of the orientation predicate under the triangulator and the convex fast path: CCW with zero tolerance equals the sign of the exact integer determinant on a lattice, and for every tolerance it is antisymmetric under swapping the last two points and 0 for a repeated point.',
+  'level_note': 'Leaf predicate only. Ear clipping, keyholing, HalfedgeTriangulation pairing, termination and independence from triangulator reuse are NOT covered by this check (std::multiset/linked-list state of the ear clipper is outside what the encoder reaches at a useful size).',
+  'obligations': [
+    dict(name='ccw_lattice', harness='c10_ccw.cpp', entry='h_ccw_lattice', defs={'VF_R': 8}, backends=['minisat', 'kissat'], timeout=600, unwind={'default': 4},
+         claim='CCW(p0,p1,p2,0) == sign of the integer determinant', bounds='lattice [-8,8]^2, double arithmetic', targets=['utils.h CCW']),
+    dict(name='ccw_antisym', harness='c10_ccw.cpp', entry='h_ccw_antisym', real='f16', backends=['minisat', 'kissat'], timeout=600, unwind={'default': 2},
+         claim='CCW(p0,p1,p2,tol) == -CCW(p0,p2,p1,tol); repeated point => 0', bounds='IEEE binary16 arithmetic, |x| <= 64, any tol', targets=['utils.h CCW']),
+  ],
+}
+
+PROPERTIES['C19'] = {
+  'level_text': 'Bounded model checking of the tolerance floor: Impl::SetEpsilon for EVERY bit pattern of bounding box, tolerance and requested epsilon leaves tolerance >= epsilon, never lowers the tolerance, and epsilon is -1 or a finite value >= the request; MaxEpsilon equals max(request, kPrecision*scale) on finite boxes.',
+  'level_note': 'Tolerance arithmetic only. Subdivision partitions (Partition::GetPartition/Reindex), surface preservation of Refine*, and the geometric guarantee of Simplify/SetTolerance are NOT covered by this check.',
+  'obligations': [
+    dict(name='set_epsilon_floor', harness='c19_tolerance.cpp', entry='h_set_epsilon', backends=['minisat', 'kissat'], timeout=600, unwind={'default': 4},
+         claim='Impl::SetEpsilon: tolerance_ >= epsilon_, tolerance never decreases, epsilon_ is -1 or finite and >= minEpsilon', bounds='all 64-bit doubles incl. NaN/inf for box, tolerance, minEpsilon; both precisions flags', targets=['impl.cpp Manifold::Impl::SetEpsilon', 'shared.h MaxEpsilon', 'common.h Box::Scale']),
+    dict(name='max_epsilon', harness='c19_tolerance.cpp', entry='h_max_epsilon', backends=['minisat', 'kissat'], timeout=600, unwind={'default': 4},
+         claim='MaxEpsilon(minEps, box) == max(minEps, kPrecision*box.Scale()) for finite input', bounds='all finite doubles |x|<=1e100', targets=['shared.h MaxEpsilon']),
+  ],
+}
+
+PROPERTIES['C01'] = {
+  'level_text': 'Bounded model checking of single topological edit / compaction steps of the real code from an ARBITRARY halfedge structure satisfying the representation invariant (pairs are an involution joining opposite directed edges, no degenerate triangle, indices in range, tombstoned triangles consistent): RemoveIfFolded, CollapseTri and GatherFaces/ReindexFace preserve the invariant; GatherFaces yields the same mesh up to face renumbering. One inductive step from every invariant state covers histories of any length for these operations.',
+  'level_note': 'Structure level, 4 triangles / 4 vertices. NOT covered: CollapseEdge/SwapEdge/DedupeEdge/SplitPinchedVerts as whole procedures, CreateHalfedges, Boolean face assembly, the triangulator, Subdivide, quickhull, level set; vertex referencedness and finiteness of the exported mesh.',
+  'obligations': [
+    dict(name='remove_if_folded', harness='c01_edgeops.cpp', entry='h_remove_if_folded', defs={'VF_T': 4, 'VF_V': 4}, backends=['minisat'], timeout=900, unwind={'default': 13},
+         claim='Impl::RemoveIfFolded(edge) for every live edge of every invariant state (tombstones allowed) preserves the invariant and the array sizes', bounds='4 triangles (12 halfedges), 4 vertices, fully symbolic start/pair arrays', targets=['edge_op.cpp Impl::RemoveIfFolded, PairUp', 'shared.h Halfedges']),
+    dict(name='collapse_tri', harness='c01_edgeops.cpp', entry='h_collapse_tri', defs={'VF_T': 4, 'VF_V': 4}, backends=['minisat'], timeout=900, unwind={'default': 13}, tiers=['experimental'],
+         claim='Impl::CollapseTri on a triangle whose edge 0 has been collapsed (start==end, unpaired) re-pairs its two neighbours and restores the invariant', bounds='4 triangles, 4 vertices', targets=['edge_op.cpp Impl::CollapseTri, PairUp']),
+    dict(name='gather_faces', harness='c01_sort.cpp', entry='h_gather_faces', defs={'VF_T': 4, 'VF_V': 4}, backends=['minisat'], timeout=900, unwind={'default': 13}, recursion={'default': 2},
+         cdefs=['VF_ALLOC_CLASSES=VF_C(16) VF_C(48) VF_C(64) VF_C(96)'],
+         claim='Impl::GatherFaces(faceNew2Old) for every face permutation: invariant preserved, starts copied, pairs mapped through the permutation, triRef permuted', bounds='4 triangles, 4 vertices, all 24 permutations', targets=['sort.cpp Impl::GatherFaces, ReindexFace, Permute', 'parallel.h scatter/gather/for_each_n(Seq)']),
   ],
 }
